@@ -60,24 +60,23 @@ func ParseTOASTPointer(data []byte) *TOASTPointer {
 		return nil
 	}
 
-	// varatt_external structure starts at byte 1 (after the tag)
-	offset := 1
+	// varatt_external starts at byte 2: byte 0 is the 1-byte external header, byte 1 is va_tag
+	// (18 = VARTAG_ONDISK)
+	offset := 2
 	if len(data) < offset+16 {
 		return nil
 	}
 
-	ptr := &TOASTPointer{
-		IsCompressed: tag == 0x02 || tag == 0x12,
-	}
+	ptr := &TOASTPointer{}
 
-	// va_rawsize includes compression method in high 2 bits
-	rawSizeField := binary.LittleEndian.Uint32(data[offset : offset+4])
-	ptr.RawSize = rawSizeField & 0x3FFFFFFF
-	ptr.CompressionMethod = int(rawSizeField >> 30)
+	// va_rawsize: original size including the 4-byte varlena header
+	ptr.RawSize = binary.LittleEndian.Uint32(data[offset : offset+4])
 	offset += 4
 
-	// va_extsize (external/compressed size)
-	ptr.ExtSize = binary.LittleEndian.Uint32(data[offset : offset+4])
+	// va_extinfo: external size in the low 30 bits, compression method in the high 2 bits
+	extInfo := binary.LittleEndian.Uint32(data[offset : offset+4])
+	ptr.ExtSize = extInfo & 0x3FFFFFFF
+	ptr.CompressionMethod = int(extInfo >> 30)
 	offset += 4
 
 	// va_valueid (chunk_id)
@@ -86,6 +85,9 @@ func ParseTOASTPointer(data []byte) *TOASTPointer {
 
 	// va_toastrelid
 	ptr.ToastRelID = binary.LittleEndian.Uint32(data[offset : offset+4])
+
+	// VARATT_EXTERNAL_IS_COMPRESSED: the external size is smaller than the raw payload
+	ptr.IsCompressed = uint64(ptr.ExtSize)+4 < uint64(ptr.RawSize)
 
 	return ptr
 }
